@@ -69,7 +69,8 @@ class SymDelta:
         return None
 
     def total_seconds(self):
-        return SymReal(z3.ToReal(self.e) / US, self.vs, False)
+        e = self.e if self.e.is_real() else z3.ToReal(self.e)
+        return SymReal(e / US, self.vs, False)
 
     def _cmp(self, o, op):
         l = SymDelta._lift(o)
@@ -324,6 +325,21 @@ def sym_time(c, name, lo=LO_DEFAULT, hi=HI_DEFAULT):
         c.assume(t >= lo, "time-bound")
     if hi is not None:
         c.assume(t < hi, "time-bound")
+    return t
+
+
+def sym_time_real(c, name, lo=LO_DEFAULT, hi=HI_DEFAULT):
+    """Like sym_time but over a z3 Real (microseconds as a real number): for harnesses whose
+    formulas are polynomial in elapsed time (interest), which keeps their slices in QF_NRA.
+    ``.date()`` is not available on these.  Concrete mode rounds to the microsecond."""
+    if c.mode == "conc":
+        return us_to_dt(int(round(float(_str_to_frac(str(c.values[name]))))))
+    v = c._declare(name, "real")
+    t = SymTime(v, frozenset([name]), label=name)
+    if lo is not None:
+        c.assume(SymBool(v >= dt_to_us(lo), t.vs), "time-bound")
+    if hi is not None:
+        c.assume(SymBool(v < dt_to_us(hi), t.vs), "time-bound")
     return t
 
 
